@@ -312,9 +312,13 @@ func (p *plugin) start(name, version string) (err error) {
 		select {
 		case err = <-p.regC:
 			if err != nil {
+				p.close()
+				p.stop()
 				return fmt.Errorf("failed to register plugin: %w", err)
 			}
 		case <-p.closeC:
+			p.close()
+			p.stop()
 			return fmt.Errorf("failed to register plugin, connection closed")
 		case <-time.After(timeout):
 			p.close()
